@@ -274,5 +274,79 @@ pub fn run_gen(ast: &str, doc: &str) -> Result<String, String> {
     }
 }
 
+
+/// builds the second representation directly from the S-expression of a document, keeping the members of every
+/// object in the order they are written (a `Queryable` is free to present members in any order; equality of
+/// objects must not depend on it, wildcards and descendants must follow it)
+fn v_of_sexp(s: &Sexp) -> Result<V, String> {
+    let (tag, args) = crate::head(s)?;
+    Ok(match (tag, args.len()) {
+        ("null", 0) => V::Null,
+        ("b", 1) => V::Bool(crate::boolean(&args[0])?),
+        ("i", 1) => {
+            let a = crate::atom(&args[0])?;
+            if let Ok(i) = a.parse::<i64>() {
+                V::Int(i)
+            } else {
+                V::UInt(a.parse::<u64>().map_err(|e| e.to_string())?)
+            }
+        }
+        ("f", 2) => {
+            let f = crate::dyadic(crate::int(&args[0])?, crate::int(&args[1])?);
+            if !f.is_finite() {
+                return Err("non-finite float".into());
+            }
+            V::Float(f)
+        }
+        ("s", _) => V::Str(crate::cps_to_string(s)?),
+        ("a", _) => V::Arr(args.iter().map(v_of_sexp).collect::<Result<Vec<_>, String>>()?),
+        ("o", _) => {
+            let mut m = Vec::new();
+            for kv in args {
+                let kv = crate::list(kv)?;
+                if kv.len() != 2 {
+                    return Err("member".into());
+                }
+                m.push((crate::cps_to_string(&kv[0])?, v_of_sexp(&kv[1])?));
+            }
+            V::Obj(m)
+        }
+        _ => return Err(format!("doc: {}", tag)),
+    })
+}
+
+/// evaluates the AST over the second representation only, members in the order given (no serde_json::Value involved)
+pub fn run_genu(ast: &str, doc: &str) -> Result<String, String> {
+    let q = crate::query_of(&sexp::parse(ast)?)?;
+    let v = v_of_sexp(&sexp::parse(doc)?)?;
+    let mut index = HashMap::new();
+    index_v(&v, "$".to_string(), &mut index);
+    let run = |disjoint: bool| {
+        DISJOINT.store(disjoint, Ordering::Relaxed);
+        let r = js_path_process(&q, &v).map(|rs| {
+            rs.into_iter()
+                .map(|r| {
+                    let path = r.clone().path();
+                    (
+                        index.get(&(r.val() as *const V as usize)).cloned().unwrap_or_else(|| "FOREIGN".to_string()),
+                        path,
+                    )
+                })
+                .collect::<Vec<_>>()
+        });
+        DISJOINT.store(false, Ordering::Relaxed);
+        r
+    };
+    match (run(true), run(false)) {
+        (Ok(a), Ok(b)) => Ok(format!(
+            "OK\t{}\tsame={}",
+            b.iter().map(|(l, p)| format!("{}|{}", l, cps(p))).collect::<Vec<_>>().join(" "),
+            (a == b) as u8
+        )),
+        (Err(_), Err(_)) => Ok("ERR".to_string()),
+        _ => Ok("MIXED".to_string()),
+    }
+}
+
 #[allow(dead_code)]
 fn _unused(_: &Sexp) {}
